@@ -127,3 +127,14 @@ mod tests {
         assert_eq!(group.current_client_index, 0);
     }
 }
+
+#[cfg(rumqtt_verif)]
+impl SharedGroup {
+    pub fn verif_snapshot(&self) -> serde_json::Value {
+        serde_json::json!({
+            "clients": self.clients,
+            "turn": self.current_client_index,
+            "cursor": [self.cursor.0, self.cursor.1],
+        })
+    }
+}
